@@ -119,6 +119,19 @@ let alphabet (gtxt : string) : string list =
   let a = if contains gtxt "WHITESPACE" || contains gtxt "(str 20)" then a @ [" "] else a in
   let a = if contains gtxt "c3a9" || contains gtxt "c389" then a @ ["\xc3\xa9"] else a in
   if List.length a = 2 then a @ ["z"] else a
+(* a grammar with case-insensitive literals is also run on the upper-case forms of its letters *)
+let alphabet_cased (gtxt : string) : string list =
+  let a = alphabet gtxt in
+  if contains gtxt "(ins " then
+    a @ List.filter_map (fun c -> match c with "x" -> Some "X" | "y" -> Some "Y" | "z" -> Some "Z" | "\xc3\xa9" -> Some "\xc3\x89" | _ -> None) a
+  else a
+
+(* all strings up to the bound over the grammar's alphabet, then the strings one shorter that use an upper-case letter *)
+let spec_inputs (gtxt : string) (n : int) : string list =
+  let a = alphabet gtxt and b = alphabet_cased gtxt in
+  let base = all_strings a n in
+  if List.length b = List.length a then base
+  else base @ List.filter (fun w -> not (List.mem w base)) (all_strings b (n - 1))
 
 (* node tags are left out of the VM-vs-Spec comparison: `#t = e` with an e that produces no node makes the VM tag whatever token
    is last in the queue (known finding of C03/C01, not an optimizer matter); tags ARE compared before/after every pass *)
@@ -165,7 +178,7 @@ let () =
           let before = spec_obs g extras "r0" input and after = spec_obs g' extras "r0" input in
           if before = "Fuel" || after = "Fuel" then begin incr spec_fuel; incr fuels end
           else if before <> after then spec_report (sp "pass%d" p) (sp "%s in=%s" case (hex input)) after before end)
-          (all_strings (alphabet gin) !speclen)
+          (spec_inputs gin !speclen)
       end
     | ["G"; id; x; g] -> Hashtbl.replace gs id (x = "1", g, grammar_of g)
     | ["V"; id; stream; inp; impl] ->
